@@ -65,7 +65,10 @@ var _ Receipt[any, any] = (*receipt[any, any])(nil)
 
 func (r *receipt[O, X]) Blocks() iter.Seq2[block.Block, error] {
 	var iterators []iter.Seq2[block.Block, error]
-	iterators = append(iterators, r.Ran().Blocks())
+	// the invocation is only embedded when its blocks travelled with the receipt
+	if inv := r.Ran(); inv != nil {
+		iterators = append(iterators, inv.Blocks())
+	}
 
 	for _, prf := range r.Proofs() {
 		if delegation, ok := prf.Delegation(); ok {
